@@ -5,7 +5,8 @@
    Sample methods is within the named tolerance tol_* of Check/C09.v of the definition; StdDev through
    its square (0 <= s and |s^2 - var| <= tol); NaN / panic exactly where the code has no value.
    The Welford loops, fold_left sums and scan paths of Model/Sample.v do not occur in the conclusion
-   of the statistics part; the history part (kind 1) is stated relative to the model store (partial). *)
+   of the statistics part; the history part (kind 1) is stated here relative to the model store and is
+   composed into a statement about the observed dumps only in Proofs/CheckC09Hist.v / CheckC09HistVal.v. *)
 From MM Require Import Base.Num Base.GASort Model.Stream Proofs.Stream Model.Sample Spec.Sample.
 From MM Require Import Proofs.Sample Proofs.Quantile Proofs.CheckBase Check.C09.
 From Coq Require Import Lqa Lia Sorted.
@@ -1068,7 +1069,7 @@ Definition lin_ok (lo hi : Q) (num : nat) (res : list Q) : Prop :=
 Definition vec_ok (v : vcase) : Prop :=
   match v with
   | VLin lo hi num res => lin_ok lo hi num res
-  | VLog lo hi num base res =>      (* not interpreted: partial *)
+  | VLog lo hi num base res =>      (* the two tests are interpreted in Proofs/CheckC09Log.v: logspace_accept_sound *)
       pows_ok base (logspace_exponents lo hi num) res = true /\ geo_prog res = true
   | VSum xs r => sum_ok xs (Qsum xs) r
   | VMap fid xs r1 r2 u =>
